@@ -432,7 +432,8 @@ impl<T: Elem + IdOf + Clone + Debug, N: ArrayLength> Run<T, N> {
                 let mut c = c;
                 let len = want.len();
                 let a = arg(sel, len);
-                let key = if len == 0 { 0 } else { want[a.min(len - 1)] };
+                // the searched value: an element that is still to come, or (odd selectors) a value no element has
+                let key = if len == 0 || sel % 2 == 1 { 0xFFFF_FFF0 } else { want[a.min(len - 1)] };
                 let fail = |what: &str, got: String, exp: String| Err(format!("clone.{what}: {got}, the queue model gives {exp}"));
                 match which % 14 {
                     0 => {
@@ -469,8 +470,13 @@ impl<T: Elem + IdOf + Clone + Debug, N: ArrayLength> Run<T, N> {
                     3 => {
                         let g = c.position(|e| e.get() == key);
                         let w = want.iter().position(|v| *v == key);
-                        if g != w {
-                            return fail("position", format!("{g:?}"), format!("{w:?}"));
+                        let rest: Vec<u32> = c.map(|e| e.get()).collect();
+                        let wr: Vec<u32> = match w {
+                            Some(p) => want[p + 1..].to_vec(),
+                            None => vec![],
+                        };
+                        if g != w || rest != wr {
+                            return fail("position", format!("{g:?} then {rest:?}"), format!("{w:?} then {wr:?}"));
                         }
                     }
                     4 => {
